@@ -455,6 +455,8 @@ class Eval:
 
     def ev(self, e, rho, c=()):
         v = self._ev(e, rho, c)
+        if isinstance(v, complex) and v.imag == 0:
+            v = complex(v.real + 0.0, 0.0)      # no signed zeros: they select branches of ln / acos / pow
         if isinstance(v, complex):
             self.max_imag = max(self.max_imag, abs(v.imag))
         return v
